@@ -114,56 +114,57 @@ def run(ctx):
     interp_calls = [c for c in walk_expr(fn) if isinstance(c, ast.Call) and dotted(c.func) in ('np.interp', 'numpy.interp')]
     if not interp_calls:
         raise AnalysisError('construct not understood: val2idx no longer calls np.interp')
-    xp_names = set()
-    fp_names = set()
-    for c in interp_calls:
-        if len(c.args) >= 3 and isinstance(c.args[1], ast.Name) and isinstance(c.args[2], ast.Name):
-            xp_names.add(c.args[1].id)
-            fp_names.add(c.args[2].id)
-        else:
-            raise AnalysisError('construct not understood: np.interp arguments in val2idx are not plain names')
-    # the descending branch: an If whose test contains '< 0' on a diff'ed name and '.all()'
-    desc = None
-    for st in iter_stmts(fn.body):
-        if isinstance(st, ast.If):
-            t = norm(st.test)
-            if '< 0' in t and '.all()' in t:
-                desc = st
-    if desc is None:
-        raise AnalysisError('construct not understood: no descending-coordinate branch in val2idx')
-    rebound = {}
-    for st in desc.body:
-        if isinstance(st, ast.Assign) and len(st.targets) == 1 and isinstance(st.targets[0], ast.Name):
-            rebound[st.targets[0].id] = st.value
-    need = xp_names | fp_names
+    # path-wise with temporaries substituted (paths.py): on every path on which the coordinate was found descending, the abscissa
+    # and the ordinate that reach np.interp are both reversals; on the other paths neither is
+    from .. import paths as _paths
+    seeds = [api.stmt_of(c) for c in interp_calls]
+    rel = _paths.relevance(fn.body, seeds)
 
-    def is_reverse_of(name, val):
-        # accepted idioms: x[::-1] (optionally .copy()), np.flip/flipud/sort(x), sorted(x)
-        if isinstance(val, ast.Call) and isinstance(val.func, ast.Attribute) and val.func.attr == 'copy':
-            val = val.func.value
-        if isinstance(val, ast.Subscript) and isinstance(val.value, ast.Name) and val.value.id == name \
-                and norm(val.slice) == '::-1':
+    def is_reversal(e):
+        if isinstance(e, ast.Call) and isinstance(e.func, ast.Attribute) and e.func.attr == 'copy':
+            e = e.func.value
+        if isinstance(e, ast.Subscript) and norm(e.slice) == '::-1':
             return True
-        if isinstance(val, ast.Call) and (dotted(val.func) or '').split('.')[-1] in ('flip', 'flipud', 'sort', 'sorted') \
-                and val.args and isinstance(val.args[0], ast.Name) and val.args[0].id == name:
+        if isinstance(e, ast.Call) and (dotted(e.func) or '').split('.')[-1] in ('flip', 'flipud') and e.args:
             return True
         return False
-    inplace_sorted = set()
-    for st in desc.body:
-        if isinstance(st, ast.Expr) and isinstance(st.value, ast.Call) and isinstance(st.value.func, ast.Attribute) \
-                and st.value.func.attr == 'sort' and isinstance(st.value.func.value, ast.Name):
-            inplace_sorted.add(st.value.func.value.id)   # ascending afterwards (the write itself is R-QMUT's business)
-    missing = [n for n in sorted(need) if n not in rebound and n not in inplace_sorted]
-    odd = [n for n in sorted(need) if n in rebound and not is_reverse_of(n, rebound[n])]
-    if missing:
-        ctx.violation(Finding('R-DIRPAIR', RP, q, desc,
-                              'descending branch does not reverse %s although np.interp reads %s as abscissa and %s as '
-                              'ordinate: np.interp needs an increasing abscissa' % (missing, sorted(xp_names), sorted(fp_names))))
+    ndesc = 0
+    half = odd = None
+    for pth in _paths.enumerate_paths(fn.body, limit=60000, relevant=rel):
+        if pth.exit[0] == 'raise':
+            continue
+        res = _paths.expand(pth)
+        if not res.feasible:
+            continue
+        for k_, (st, new) in enumerate(res.stmts):
+            calls = [c for c in walk_expr(new) if isinstance(c, ast.Call) and dotted(c.func) in ('np.interp', 'numpy.interp')] if not isinstance(new, (ast.For, ast.While, ast.If)) else []
+            for c in calls:
+                if len(c.args) < 3:
+                    raise AnalysisError('construct not understood: np.interp arguments in val2idx')
+                desc = None
+                for e_, x, p_ in res.conds[:res.ncond_at[k_]]:
+                    t = norm(x)
+                    if '< 0' in t and '.all()' in t and 'diff' in t:
+                        desc = p_
+                if desc is not True:
+                    continue
+                ndesc += 1
+                rx, rf = is_reversal(c.args[1]), is_reversal(c.args[2])
+                if rx != rf:
+                    half = (st, norm(c.args[1])[:40] if not rx else norm(c.args[2])[:40], 'abscissa' if not rx else 'index vector')
+                elif not rx:
+                    odd = st
+    if ndesc == 0:
+        raise AnalysisError('construct not understood: no descending-coordinate branch in val2idx')
+    if half:
+        ctx.violation(Finding('R-DIRPAIR', RP, q, half[0],
+                              'on the descending path the %s handed to np.interp (%s) is not reversed although the other argument is: np.interp needs an increasing '
+                              'abscissa paired with its own indices' % (half[2], half[1])))
     elif odd:
-        ctx.undec('R-DIRPAIR', 'val2idx descending branch', where, 'rebinding of %s not recognised as a reversal' % odd)
+        ctx.violation(Finding('R-DIRPAIR', RP, q, odd,
+                              'descending branch does not reverse the abscissa and index vector that np.interp reads: np.interp needs an increasing abscissa'))
     else:
-        ctx.ok('R-DIRPAIR', 'val2idx descending branch', where,
-               'reverses %s' % sorted(need))
+        ctx.ok('R-DIRPAIR', 'val2idx descending branch', where, 'abscissa and index vector both reversed on the %d descending paths that reach np.interp' % ndesc)
     # R-EXACT
     ex = None
     for st in iter_stmts(fn.body):
@@ -224,18 +225,33 @@ def run(ctx):
         ctx.ok('R-EDGEPAIR', 'edge order', w17, 'no sorting/merging of coordinate or edge values')
     # ---- R-EDGECLAMP: method='bounds': the interpolated cell index is clamped to the last cell *after* the interpolation
     ctx.rule('R-EDGECLAMP', "val2idx(method='bounds'): a value on the closing edge (index n on the edge axis) is clamped to cell n-1 after np.interp")
-    bb = [st for st in iter_stmts(v2.body) if isinstance(st, ast.If) and norm(st.test) == "method == 'bounds'" and any(isinstance(c, ast.Call) and dotted(c.func) == 'np.interp' for c in ast.walk(st))]
-    if not bb:
-        ctx.undec('R-EDGECLAMP', 'bounds branch', w17, "branch method == 'bounds' with np.interp not found")
+    nb, unclamped, clamped = 0, None, None
+    for pth in _paths.enumerate_paths(v2.body, limit=60000, relevant=rel):
+        if pth.exit[0] == 'raise' or pth.polarity("method == 'bounds'") is not True:
+            continue
+        res = _paths.expand(pth)
+        if not res.feasible:
+            continue
+        pos = [k_ for k_, (st, new) in enumerate(res.stmts) if not isinstance(st, (ast.For, ast.While, ast.If)) and
+               any(isinstance(c, ast.Call) and dotted(c.func) == 'np.interp' for c in walk_expr(st))]
+        if not pos:
+            continue
+        nb += 1
+        clamp = [st for st, new in res.stmts[pos[-1]:] if not isinstance(st, (ast.For, ast.While, ast.If)) and
+                 any(isinstance(c, ast.Call) and dotted(c.func) in ('np.minimum', 'np.clip', 'np.fmin') and 'size - 1' in norm(c) and 'np.interp(' in norm(c) for c in walk_expr(new))]
+        # the closing edge can only be produced when np.interp is not told to put something else right of the last edge
+        open_right = res.polarity('right is None')
+        if clamp:
+            clamped = clamp[0]
+        elif open_right is not False:
+            unclamped = res.stmts[pos[-1]][0]
+    if nb == 0:
+        ctx.undec('R-EDGECLAMP', 'bounds branch', w17, "no path for method == 'bounds' reaches np.interp")
+    elif unclamped is None and clamped is not None:
+        ctx.ok('R-EDGECLAMP', 'bounds branch', w17, norm(clamped)[:70])
     else:
-        interp_st = [s2 for s2 in iter_stmts(bb[0].body) if isinstance(s2, ast.Assign) and any(isinstance(c, ast.Call) and dotted(c.func) == 'np.interp' for c in ast.walk(s2.value))]
-        clamps = [s2 for s2 in iter_stmts(bb[0].body) if isinstance(s2, ast.Assign) and any(isinstance(c, ast.Call) and dotted(c.func) in ('np.minimum', 'np.clip', 'np.fmin')
-                                                                                                and 'size - 1' in norm(c) for c in ast.walk(s2.value))]
-        if interp_st and clamps and clamps[0].lineno > interp_st[0].lineno and norm(clamps[0].targets[0]) == norm(interp_st[0].targets[0]):
-            ctx.ok('R-EDGECLAMP', 'bounds branch', w17, norm(clamps[0])[:70])
-        else:
-            ctx.violation(Finding('R-EDGECLAMP', RP, 'PseudoNetCDFFile.val2idx', interp_st[0] if interp_st else bb[0], 'the cell index from np.interp over the edges is not clamped to size - 1 afterwards: a value exactly on the '
-                                  'closing edge gets index n, a cell that does not exist (np.interp\'s right= only covers values beyond the last edge)'))
+        ctx.violation(Finding('R-EDGECLAMP', RP, 'PseudoNetCDFFile.val2idx', unclamped if unclamped is not None else v2.body[-1], 'the cell index from np.interp over the edges is not clamped to size - 1 afterwards: a value exactly on the '
+                              'closing edge gets index n, a cell that does not exist (np.interp\'s right= only covers values beyond the last edge)'))
     # ---- R-BOUNDSKEYS: both conventional names of the bounds variable are always candidates
     ctx.rule('R-BOUNDSKEYS', "val2idx looks for <dim>_bounds and <dim>_bnds whether or not the coordinate names a bounds variable")
     bk = [st for st in iter_stmts(v2.body) if isinstance(st, ast.Assign) and norm(st.targets[0]) == 'bounds_keys' and isinstance(st.value, ast.List)]
@@ -313,13 +329,37 @@ def run(ctx):
         import re as _re
         for m_ in _re.finditer(r'(\w+)\s*:[^\n]*\n\s+[^\n]*None defaults to (\w+)', doc):
             par, dflt = m_.group(1), m_.group(2)
-            hit = [st for st in iter_stmts(f7.body) if isinstance(st, ast.If) and norm(st.test) == '%s is None' % par]
+            # path-wise: on every path that found the parameter to be None, what is used afterwards in its place is the documented
+            # default (the parameter itself is not read again while it still is None); if / conditional expression / `or` alike
             w7 = 'src/PseudoNetCDF/%s PseudoNetCDFFile.%s' % (RP, name)
-            if hit and any(norm(s2) == '%s = %s' % (par, dflt) for s2 in hit[0].body):
-                ctx.ok('R-DOCDEFAULT', '%s.%s' % (name, par), w7, 'None -> %s as documented' % dflt)
+            npaths, bad, badst = 0, None, None
+            for pth in _paths.enumerate_paths(f7.body, limit=60000, relevant=_paths.relevance(f7.body, [s_ for s_ in iter_stmts(f7.body) if any(isinstance(n, ast.Name) and n.id == par for n in ast.walk(s_)) and not isinstance(s_, (ast.If, ast.For, ast.While, ast.Try, ast.With))])):
+                if pth.exit[0] == 'raise':
+                    continue
+                res = _paths.expand(pth)
+                if not res.feasible:
+                    continue
+                cut = None
+                for i_, (e_, x, p_) in enumerate(res.conds):
+                    if norm(e_) == '%s is None' % par and p_ is True and cut is None:
+                        cut = i_
+                if cut is None:
+                    continue
+                npaths += 1
+                later = [(st, new) for k_, (st, new) in enumerate(res.stmts) if res.ncond_at[k_] > cut and not isinstance(st, (ast.If, ast.For, ast.While))]
+                # what stands where the statements read the parameter
+                repl = [(st, r) for st, new in later for r in _paths.replacements(st, new, par)]
+                wrong = [(st, r) for st, r in repl if not (isinstance(r, ast.Name) and r.id == dflt)]
+                if wrong:
+                    r = wrong[0][1]
+                    bad, badst = ('None (the parameter is used as it came)' if isinstance(r, ast.Name) and r.id == par else norm(r)[:40]), wrong[0][0]
+                elif not repl:
+                    bad, badst = 'nothing (the parameter is not used afterwards)', (later[0][0] if later else f7.body[0])
+            if npaths and bad is None:
+                ctx.ok('R-DOCDEFAULT', '%s.%s' % (name, par), w7, 'None -> %s as documented (%d paths)' % (dflt, npaths))
             else:
-                ctx.violation(Finding('R-DOCDEFAULT', RP, 'PseudoNetCDFFile.' + name, hit[0] if hit else f7.body[0],
-                                      'the docstring says %s=None defaults to %s, the code applies %s' % (par, dflt, norm(hit[0].body[0]) if hit else 'nothing')))
+                ctx.violation(Finding('R-DOCDEFAULT', RP, 'PseudoNetCDFFile.' + name, badst if badst is not None else f7.body[0],
+                                      'the docstring says %s=None defaults to %s, the code applies %s' % (par, dflt, bad or 'nothing')))
     # R-TZDROP in date2num
     check_tzdrop(ctx, mod, 'PseudoNetCDFFile.date2num')
     ctx.floor('lookup functions', len(FUNCS), 4)
